@@ -119,7 +119,7 @@ def fresh_interpreter(ctx, finals):
     """Run each final call first in a fresh interpreter (other hash seed); compare projected results."""
     procs = []
     env = dict(os.environ)
-    env['PYTHONPATH'] = ROOT + os.pathsep + '/repo'
+    env['PYTHONPATH'] = ROOT + os.pathsep + os.environ.get('VERIF_REPO', '/repo')
     env['MPLBACKEND'] = 'Agg'
     for i, (req, want, case) in enumerate(finals):
         e = dict(env)
